@@ -69,7 +69,7 @@ func ruleC08_1(c *Ctx) {
 		return false, false
 	}
 	pr := c.An.Prune(vh, as)
-	r := c.An.MustPass(pr, c.An.IsServeReturn, c.An.isEntryWriteLeading)
+	r := c.An.MustPass(pr, c.An.IsServeReturn, c.An.KUnder("ENTRY-WRITE", "304-branch", as, func(in ssa.Instruction) bool { return c.An.CallsRole(in, "writeEntry") }))
 	desc := "after a 304 the freshened stored response is written back to the store before it is returned"
 	if r.Targets == 0 {
 		c.Undecided("C08.1", "304-write-back", desc, "no return of the stored response under {err==nil, GET, status==304}")
